@@ -38,14 +38,13 @@ Definition deser_NeighUnique : reader aneigh := deser_ANeigh.
 
 (* ====================================================================== NeighBench (src/Neigh/NeighBench.cpp:77-95) *)
 (* two copies of the width exist: NeighBench::_width (getWidth(), getMaxSampleNumber) and the one of the bench checker
-   _biPtBench (written by _serialize, used by the search).  _deserialize rebuilds the checker only: _width keeps the
-   value of the default constructor (0.). *)
+   _biPtBench (written by _serialize, used by the search).  _deserialize sets both from the value read. *)
 Record neigh_bench := { nb_base : aneigh; nb_width : dbl; nb_bipt_width : dbl }.
 Definition ser_NeighBench (o : neigh_bench) : list record :=
   ser_ANeigh (nb_base o) ++ [r_dbl "Bench Width" (nb_bipt_width o)].
 Definition deser_NeighBench : reader neigh_bench :=
   a <- deser_ANeigh ;; w <- rd_dbl ;;
-  ret {| nb_base := a; nb_width := d0; nb_bipt_width := w |}.
+  ret {| nb_base := a; nb_width := w; nb_bipt_width := w |}.
 
 (* ====================================================================== NeighCell (src/Neigh/NeighCell.cpp:76-92) *)
 Record neigh_cell := { nc_base : aneigh; nc_nmini : Z }.
@@ -87,20 +86,20 @@ Definition deser_NeighMoving : reader neigh_moving :=
   cr <- (if z2b faniso then
            cs <- rrepZ ndim rd_dbl ;; frot <- rd_int ;;
            rm <- (if z2b frot then rrepZ (ndim * ndim) rd_dbl else ret []) ;;
-           ret (cs, rm)
-         else ret ([], [])) ;;
-  let '(cs, rm) := cr in
-  (* if (!nbgh_coeffs.empty() && !FFFF(dmax)) nbgh_coeffs[idim] *= dmax; *)
-  let cs' := if negb (null cs) && negb (is_na dmax) then map (dmul dmax) cs else cs in
+           ret (cs, frot, rm)
+         else ret ([], 0, [])) ;;
+  let '(cs, frot, rm) := cr in
+  (* the coefficients are kept as read (they are not multiplied by the radius) *)
   (* setNSect(getFlagSector() ? MAX(_nSect,1) : 1) *)
   let nsect' := if flag_sector ndim nsect then Z.max nsect 1 else 1 in
   (* _biPtDist = BiTargetCheckDistance::create(dmax, nbgh_coeffs): no angles => identity, flagRotation = false *)
   let '(aniso, coeffs, rot0) :=
-     if null cs' then (false, [d1; d1], idmat 2) else (true, cs', idmat (length cs')) in
-  (* if (!nbgh_rotmat.empty()) _biPtDist->setAnisoRotMat(nbgh_rotmat);   -- the flag is not set *)
+     if null cs then (false, [d1; d1], idmat 2) else (true, cs, idmat (length cs)) in
+  (* if (!nbgh_rotmat.empty()) { setAnisoRotMat(nbgh_rotmat); setFlagRotation(flag_rotation != 0); } *)
   let rotmat := if null rm then rot0 else rm in
+  let rot := if null rm then false else z2b frot in
   ret {| nm_base := a; nm_nmini := nmini; nm_nmaxi := nmaxi; nm_nsect := nsect'; nm_nsmax := nsmax;
-         nm_distcont := None; nm_radius := dmax; nm_aniso := aniso; nm_rot := false;
+         nm_distcont := None; nm_radius := dmax; nm_aniso := aniso; nm_rot := rot;
          nm_coeffs := coeffs; nm_rotmat := rotmat |}.
 
 (* ====================================================================== Table (src/Matrix/Table.cpp:137-181) *)
@@ -142,10 +141,10 @@ Definition deser_Polygons : reader (list polyelem) :=
 
 (* ====================================================================== AnamHermite (AnamContinuous.cpp:165-221, AnamHermite.cpp:618-648) *)
 (* state: bounds, mean, variance, _rCoef and the raw coefficients _psiHn.
-   _serialize writes getPsiHns(): when a change of support is defined (_rCoef < 1, AnamHermite.hpp:45) these are the
-   coefficients multiplied by r^i (AnamHermite.cpp:389-403).  _deserialize stores what it reads as raw coefficients
-   (setPsiHns) together with the same r (setRCoef), which recomputes _mean = _psiHn[0] and
-   _variance = sum_{i>=1} getPsiHn(i)^2 (computeVariance(1.)).  _flagBound is not written. *)
+   _serialize writes the raw coefficients _psiHn and r; _deserialize stores them (setPsiHns, setRCoef), which
+   recomputes _mean = _psiHn[0] and _variance = sum_{i>=1} getPsiHn(i)^2 (computeVariance(1.)), where getPsiHn(i) is
+   the coefficient multiplied by r^i when a change of support is defined (_rCoef < 1, AnamHermite.hpp:45,
+   AnamHermite.cpp:380-403).  _flagBound is not written. *)
 Record anam_hermite := {
   ah_azmin : dbl; ah_azmax : dbl; ah_aymin : dbl; ah_aymax : dbl;
   ah_pzmin : dbl; ah_pzmax : dbl; ah_pymin : dbl; ah_pymax : dbl;
@@ -167,7 +166,7 @@ Definition ser_AnamHermite (o : anam_hermite) : list record :=
     r_dbl "Calculated mean" (ah_mean o); r_dbl "Calculated variance" (ah_variance o);
     r_dbl "Change of support coefficient" (ah_rcoef o);
     r_int "Number of Hermite Polynomials" (lenZ (ah_psi o));
-    r_vdbl "Hermite Polynomial" (psi_eff (ah_rcoef o) (ah_psi o)) ].
+    r_vdbl "Hermite Polynomial" (ah_psi o) ].
 Definition deser_AnamHermite : reader anam_hermite :=
   azmin <- rd_dbl ;; azmax <- rd_dbl ;; aymin <- rd_dbl ;; aymax <- rd_dbl ;;
   pzmin <- rd_dbl ;; pzmax <- rd_dbl ;; pymin <- rd_dbl ;; pymax <- rd_dbl ;;
